@@ -17,6 +17,7 @@ import (
 	"pgregory.net/rapid"
 
 	"verifharness/oracle/scriptpolicy"
+	"verifharness/pbt"
 	"verifharness/stats"
 )
 
@@ -64,9 +65,14 @@ func seqGen(csv uint32) *rapid.Generator[uint32] {
 	)
 }
 
-func TestC02Script(t *testing.T) {
+func TestC02Script(t *testing.T) { propC02Script(t) }
+
+// FuzzC02Script drives the same property body with Go's coverage-guided fuzzer (thorough tier).
+func FuzzC02Script(f *testing.F) { propC02Script(f) }
+
+func propC02Script(t testing.TB) {
 	col := stats.Get("C02.script")
-	rapid.Check(t, func(t *rapid.T) {
+	pbt.Run(t, func(t *rapid.T) {
 		taker := genKey.Draw(t, "taker")
 		maker := genKey.Draw(t, "maker")
 		stranger := genKey.Draw(t, "stranger")
